@@ -153,6 +153,12 @@ class Gen:
             flags = [[kd, d] for kd, d in flags if kd == "isystem" or real.get(d, d) not in sysdirs]
             defines = [f"{n}={r.randint(0, 2)}" if r.random() < 0.7 else n for n in MACROS if r.random() < 0.3]
             entries.append({"file": s, "directory": ".", "flags": flags, "defines": defines, "forced": []})
+            if len(flags) >= 2 and r.random() < 0.35:
+                # a second command for the same file that searches the same directories in another order
+                # (what one command found must not be served to the other)
+                f2 = [list(x) for x in flags]
+                r.shuffle(f2)
+                entries.append({"file": s, "directory": ".", "flags": f2, "defines": list(defines) if r.random() < 0.6 else [], "forced": []})
         self.entries = entries
         # which header exists where: the same name beside the includer and in several flag directories
         nh = r.randint(2, len(HDRS))
@@ -173,9 +179,17 @@ class Gen:
                 seen = "SEEN_" + re.sub(r"\W", "_", p).upper()
                 b += [f"#ifdef {seen}", self.marker(), "#endif", f"#define {seen} 1"]
             style = r.random()
-            if style < 0.35:
+            if style < 0.28:
                 g = "G_" + re.sub(r"\W", "_", d + "_" + h).upper()
                 b = [f"#ifndef {g}", f"#define {g}"] + b + ["#endif"]
+            elif style < 0.40:
+                # not a full include guard: the guard has an #else branch, or further text follows its #endif
+                g = "G_" + re.sub(r"\W", "_", d + "_" + h).upper()
+                if r.random() < 0.5:
+                    b = [f"#ifndef {g}", f"#define {g}"] + b + ["#else", self.marker(), f"#define {g}_AGAIN 1", "#endif"]
+                else:
+                    b = [f"#ifndef {g}", f"#define {g}"] + b + ["#endif", r.choice([f"#ifdef {g}", f"#ifdef {r.choice(MACROS)}", "#if 1"]),
+                                                                 self.marker(), "#endif"]
             elif style < 0.65:
                 b = ["#pragma once"] + b
             files[p] = b
